@@ -275,12 +275,23 @@ def run_property(prop_id, tier="quick", root=None, replay=None, quiet=False,
         rc = finish(ctx, t0, write_evidence=write_evidence)
         return rc, ctx
     except AnalysisError as e:
+        if any(o.status == "fail" for o in ctx.obligations):
+            # definite violations found before the analysis gave up are reported
+            ctx.note(f"analysis stopped early: {e}")
+            rc = finish(ctx, t0, write_evidence=write_evidence)
+            if rc == 1:
+                return rc, ctx
         if not quiet:
             print(f"ANALYSIS-ERROR property={prop_id} {e}")
         if write_evidence:
             write_ev(ctx, {}, len(ctx.obligations), 0, [], t0, error=str(e))
         return 2, ctx
     except Exception as e:  # tracebacks must not look like violations
+        if any(o.status == "fail" for o in ctx.obligations):
+            ctx.note(f"analysis stopped early (internal {type(e).__name__}: {e})")
+            rc = finish(ctx, t0, write_evidence=write_evidence)
+            if rc == 1:
+                return rc, ctx
         if not quiet:
             traceback.print_exc()
             print(f"ANALYSIS-ERROR property={prop_id} internal: "
